@@ -75,7 +75,8 @@ impl AlignHash for core::ops::RangeFull {
 
 impl MaxSizeOf for core::ops::RangeFull {
     fn max_size_of() -> usize {
-        0
+        // Zero is not a valid alignment unit
+        core::mem::align_of::<Self>()
     }
 }
 
